@@ -195,5 +195,8 @@ def run(chk, prog):
     from . import dimrules
     nrd = dimrules.run(chk, prog, "RD")
     chk.floor("RD-requirements", nrd or 0, 2)
+    # ---- R6: the field owns what it was set up with (bucket numbers, sizes, factors) ----------------------------------------------------------
+    from .common import owns_its_configuration
+    owns_its_configuration(chk, prog, "R6", ["vfps::ElectricField"], floor=20)
     chk.notes.append("C06: padded-layout writer/reader agreement, plan/buffer pipeline, half-spectrum range, 1/N and physical scaling "
                      "normal forms, main wiring. Not decided: numerical equality with a reference DFT.")
